@@ -99,7 +99,11 @@ fn execute(prog: Program, variant: &'static str) -> WorldResult {
     admin.exec(&format!("set $$secret {}", sv("sec", 0)));
     admin.exec(&format!("set $$secret {}", sv("sec", 1)));
     admin.exec(&format!("create-user x {}", sv("xtok", 0)));
-    admin.exec(&format!("set-permissions x {}", if variant == "A" { "r a*" } else { "w b*" }));
+    // x is a user the low session never logs in as: its permission list (a $$ key) differs between the
+    // worlds in a way that would show on the public keys if it were ever consulted for the low session
+    admin.exec(&format!("set-permissions x {}", if variant == "A" { "rwix s*" } else { "rwix $s*" }));
+    // a secure key whose very name differs between the worlds (listings must not show it)
+    admin.exec(&format!("set $$only{} 1", variant));
     admin.exec("create-user lo lotok");
     admin.exec(&format!("set-permissions lo {}", prog.low_permissions));
     admin.exec("set secret pub1");
@@ -115,7 +119,7 @@ fn execute(prog: Program, variant: &'static str) -> WorldResult {
         match step {
             Step::AdminSetSecret { key } => {
                 n += 1;
-                let val = if key.starts_with("$$permission") { (if variant == "A" { "r c*" } else { "x d*" }).to_string() } else { sv("v", n) };
+                let val = if key.starts_with("$$permission") { (if variant == "A" { "rwix $s*" } else { "rwix s*" }).to_string() } else { sv("v", n) };
                 admin.exec(&format!("set {} {}", key, val));
             }
             Step::AdminConflictSecret { key } => {
